@@ -298,7 +298,7 @@ func (n *lazyNode) compact() []byte {
 	return buf.Bytes()
 }
 
-func (n *lazyNode) tryDoc() bool {
+func (n *lazyNode) tryDoc(options *ApplyOptions) bool {
 	if n.raw == nil {
 		return false
 	}
@@ -313,6 +313,7 @@ func (n *lazyNode) tryDoc() bool {
 		return false
 	}
 
+	n.doc.opts = options
 	n.which = eDoc
 	return true
 }
@@ -348,7 +349,7 @@ func (n *lazyNode) isNull() bool {
 	return bytes.Equal(n.compact(), rawJSONNull)
 }
 
-func (n *lazyNode) equal(o *lazyNode) bool {
+func (n *lazyNode) equal(o *lazyNode, options *ApplyOptions) bool {
 	// A JSON null is either a nil node (decoded from a document) or a raw
 	// "null" (supplied by a patch); null is equal to null only.
 	if n.isNull() || o.isNull() {
@@ -356,7 +357,7 @@ func (n *lazyNode) equal(o *lazyNode) bool {
 	}
 
 	if n.which == eRaw {
-		if !n.tryDoc() && !n.tryAry() {
+		if !n.tryDoc(options) && !n.tryAry() {
 			if o.which != eRaw {
 				return false
 			}
@@ -387,7 +388,7 @@ func (n *lazyNode) equal(o *lazyNode) bool {
 
 	if n.which == eDoc {
 		if o.which == eRaw {
-			if !o.tryDoc() {
+			if !o.tryDoc(options) {
 				return false
 			}
 		}
@@ -407,7 +408,7 @@ func (n *lazyNode) equal(o *lazyNode) bool {
 				return false
 			}
 
-			if !v.equal(ov) {
+			if !v.equal(ov, options) {
 				return false
 			}
 		}
@@ -424,7 +425,7 @@ func (n *lazyNode) equal(o *lazyNode) bool {
 	}
 
 	for idx, val := range n.ary.nodes {
-		if !val.equal(o.ary.nodes[idx]) {
+		if !val.equal(o.ary.nodes[idx], options) {
 			return false
 		}
 	}
@@ -1006,7 +1007,7 @@ func (p Patch) replace(doc *container, op Operation, options *ApplyOptions) erro
 		val := op.value()
 
 		if val.which == eRaw {
-			if !val.tryDoc() {
+			if !val.tryDoc(options) {
 				if !val.tryAry() {
 					return fmt.Errorf("replace operation value must be object or array: %w", err)
 				}
@@ -1112,7 +1113,7 @@ func (p Patch) test(doc *container, op Operation, options *ApplyOptions) error {
 			}
 		}
 
-		if self.equal(op.value()) {
+		if self.equal(op.value(), options) {
 			return nil
 		}
 
@@ -1141,7 +1142,7 @@ func (p Patch) test(doc *container, op Operation, options *ApplyOptions) error {
 		return fmt.Errorf("testing value %s failed: %w", path, ErrTestFailed)
 	}
 
-	if val.equal(op.value()) {
+	if val.equal(op.value(), options) {
 		return nil
 	}
 
@@ -1203,7 +1204,7 @@ func Equal(a, b []byte) bool {
 	la := newLazyNode(newRawMessage(a))
 	lb := newLazyNode(newRawMessage(b))
 
-	return la.equal(lb)
+	return la.equal(lb, nil)
 }
 
 // DecodePatch decodes the passed JSON document as an RFC 6902 patch.
